@@ -4,6 +4,7 @@ package traefikoidc_test
 // Steps are replayed by the Lean `Verify` model (token cache × revocation cache × limiter).
 
 import (
+	"math"
 	"fmt"
 	"net/http"
 	"net/http/httptest"
@@ -92,6 +93,9 @@ func (r *verifyRun) mint(kind string, expIn time.Duration, jti string) *vtok {
 	t.expNs = now.Add(expIn).Unix() * 1e9
 	t.accFrom = (now.Unix() - 10) * 1e9
 	t.accTo = (now.Add(expIn).Unix() + 120) * 1e9
+	if now.Add(expIn).Unix() > 9000000000 { // (beyond the year 2255 nanoseconds do not fit into an int64: no run's clock gets there; saturate)
+		t.expNs, t.accTo = math.MaxInt64-300000000000, math.MaxInt64-100000000000
+	}
 	switch kind {
 	case "valid":
 	case "future": // becomes valid one hour from now
@@ -275,6 +279,17 @@ func familyVerify(t *testing.T) {
 				damaged := r.mint("sameprefix", 30*time.Minute, "")
 				r.verify(damaged, false)
 				r.verify(tk, false)
+			}
+			if sc%7 == 5 { // a "never expires" token (exp 9999999999: the year 2286), revoked: still refused after the caches' periodic clean-up has run
+				tk := r.mint("valid", time.Unix(9999999999, 0).Sub(time.Now()), []string{"", fmt.Sprintf("jti-far-%d", sc)}[sc/7%2])
+				r.verify(tk, false)
+				r.revoke(tk)
+				r.verify(tk, false)
+				vsleep(6*time.Minute + time.Duration(rng.Intn(240))*time.Second)
+				r.verify(tk, false)
+				vsleep(26 * time.Hour)
+				r.verify(tk, false)
+				T.stat("verify.far-future-revocation")
 			}
 			if sc%7 == 3 { // a token delivered with a trailing line break: verified, revoked under that very string, verified again
 				tk := r.mint("padded", 30*time.Minute, []string{"", fmt.Sprintf("jti-padded-%d", sc)}[sc/7%2])
